@@ -219,10 +219,10 @@ fn main() {
                 IpAddr::V4(a) => packet::Nlri::V4(packet::bgp::Ipv4Net { addr: a, mask }),
                 IpAddr::V6(a) => packet::Nlri::V6(packet::bgp::Ipv6Net { addr: a, mask }),
             };
-            let mut attrs = vec![
-                Attribute::new_with_value(Attribute::ORIGIN, 0).unwrap(),
-                Attribute::new_with_bin(Attribute::AS_PATH, aspath(r["ap"].as_str().unwrap())).unwrap(),
-            ];
+            let mut attrs = vec![Attribute::new_with_value(Attribute::ORIGIN, 0).unwrap()];
+            if r["ap"].as_str().unwrap() != "none" {
+                attrs.push(Attribute::new_with_bin(Attribute::AS_PATH, aspath(r["ap"].as_str().unwrap())).unwrap());
+            }
             let cm: Vec<u64> = r["cm"].as_array().unwrap().iter().map(|x| x.as_u64().unwrap()).collect();
             if !cm.is_empty() {
                 let mut b = Vec::new();
